@@ -362,6 +362,17 @@ func extractTagTokensFromComment(tok parser.Token) []semanticToken {
 	parts := strings.Split(commentText, ",")
 	searchStart := 0
 
+	// UTF-16 columns of a byte offset, counted incrementally (offsets only grow;
+	// a comment may hold very many tags)
+	bytesDone, colsDone := 0, uint32(0)
+	columnsUpTo := func(offset int) uint32 {
+		if offset > bytesDone {
+			colsDone += uint32(lsputil.UTF16Len(commentText[bytesDone:offset]))
+			bytesDone = offset
+		}
+		return colsDone
+	}
+
 	for _, part := range parts {
 		trimmed := strings.TrimSpace(part)
 		colonIdx := strings.Index(trimmed, ":")
@@ -392,7 +403,7 @@ func extractTagTokensFromComment(tok parser.Token) []semanticToken {
 		// +1 to baseCol accounts for the semicolon that starts the comment
 		tokens = append(tokens, semanticToken{
 			line:      baseLine,
-			col:       baseCol + 1 + uint32(lsputil.UTF16Len(commentText[:tagStart])),
+			col:       baseCol + 1 + columnsUpTo(tagStart),
 			length:    tagNameWithColonLen,
 			tokenType: TokenTypeTag,
 			modifiers: 0,
@@ -408,7 +419,7 @@ func extractTagTokensFromComment(tok parser.Token) []semanticToken {
 				if valueStart != -1 {
 					tokens = append(tokens, semanticToken{
 						line:      baseLine,
-						col:       baseCol + 1 + uint32(lsputil.UTF16Len(commentText[:tagNameEnd+valueStart])),
+						col:       baseCol + 1 + columnsUpTo(tagNameEnd+valueStart),
 						length:    uint32(lsputil.UTF16Len(value)),
 						tokenType: TokenTypeTagValue,
 						modifiers: 0,
